@@ -328,6 +328,61 @@ static void one_case(long idx, void *arg)
             }
             if (fa >= 0) close(fa); if (fb >= 0) close(fb); if (fc >= 0) close(fc);
             for (int i = 0; i < 10; i++) owner_service(&ow);
+        } else if (act < 95 && os) {
+            /* a client that pipelines: many requests written before the first reply is read.  The owner's replies (37 kB each) fill the
+             * client's receive queue, its next reply is refused by the kernel and has to wait; nothing may be dropped or reordered */
+            fd = -1; for (int t = 0; t < 50 && fd < 0; t++) { fd = vctl_connect_path(path); if (fd < 0) owner_service(&ow); }
+            if (fd < 0) { free(m); continue; }
+            static const char *const pool[] = { "xcm.type", "xcm.transport", "xcm.blocking", "no.such.attr", "xcm.service", "xcm.max_msg_size", "xcm.local_addr" };
+            int want = 14 + (int)vrnd_n(&r, 14); int order[32]; int sent = 0, stalls = 0;
+            while (sent < want && stalls < 40) {
+                order[sent] = (int)vrnd_n(&r, 7);
+                if (vctl_send_get(fd, pool[order[sent]]) > 0) { sent++; stalls = 0; } else stalls++;
+                owner_turns(&ow, os, 1 + (int)vrnd_n(&r, 6));
+            }
+            for (int i = 0; i < 8; i++) owner_service(&ow);
+            vobs("pipelined_sessions", 1); vobs("pipelined_requests", sent);
+            int got = 0;
+            while (got < sent && !vviol_count()) {
+                long n = raw_wait_reply(fd, &ow, m, 600);
+                if (n == 0) { cv("reply-missing", "pipelined", "%d requests were written before the first reply was read; only %d replies came back", sent, got); break; }
+                if (n < 0) { cv("session-closed", "pipelined", "the owner closed a session that had %d well-formed requests outstanding (%d answered)", sent, got); break; }
+                check_get_reply(os, pool[order[got]], m, n, "raw-pipelined");
+                got++;
+            }
+            if (got == sent) { for (int i = 0; i < 6; i++) owner_service(&ow); if (vctl_recv(fd, m) > 0) cv("unsolicited-reply", "pipelined", "more replies than requests (%d)", sent); }
+            close(fd);
+            for (int i = 0; i < 6; i++) owner_service(&ow);
+        } else if (act < 97 && os) {
+            /* an owner that acts only when its descriptor says so (a real event loop): both seats taken, one session leaves, the other is silent,
+             * a newcomer connects and asks - the owner must be woken up for it */
+            int fa = -1, fb = -1, fc = -1; bool is_server = os == S.s; int cond = is_server ? XCM_SO_ACCEPTABLE : XCM_SO_RECEIVABLE;
+            for (int t = 0; t < 50 && fa < 0; t++) { fa = vctl_connect_path(path); if (fa < 0) owner_service(&ow); }
+            for (int t = 0; t < 50 && fb < 0; t++) { fb = vctl_connect_path(path); if (fb < 0) owner_service(&ow); }
+            bool both = false;
+            if (fa >= 0 && fb >= 0) { vctl_send_get(fa, "xcm.type"); vctl_send_get(fb, "xcm.type"); long n1 = raw_wait_reply(fa, &ow, m, 600), n2 = raw_wait_reply(fb, &ow, m, 600); both = n1 > 0 && n2 > 0; }
+            if (both) {
+                int xfd; { SCX("xcm_await", 8); xcm_await(os, cond); vs_leave(); } { SCX("xcm_fd", 8); xfd = xcm_fd(os); vs_leave(); }
+                if (vrnd_p(&r, 50)) { close(fa); fa = -1; } else { close(fb); fb = -1; }
+                /* event-driven turns until the owner's descriptor is quiet */
+                int quiet = 0;
+                for (int i = 0; i < 400 && quiet < 3; i++) { struct pollfd pf = { .fd = xfd, .events = POLLIN }; if (vs_real_poll(&pf, 1, 10) > 0) { owner_turns(&ow, os, 1); quiet = 0; } else quiet++; }
+                for (int t = 0; t < 20 && fc < 0; t++) { fc = vctl_connect_path(path); if (fc < 0) { struct pollfd none; vs_real_poll(&none, 0, 2); } }
+                if (fc >= 0 && quiet >= 3) {
+                    vctl_send_get(fc, "xcm.type");
+                    long n = 0; int wakeups = 0; double t0 = vnow();
+                    while (n == 0 && vnow() - t0 < 3.0) {
+                        struct pollfd pf = { .fd = xfd, .events = POLLIN };
+                        if (vs_real_poll(&pf, 1, 50) > 0) { owner_turns(&ow, os, 1); wakeups++; }
+                        n = vctl_recv(fc, m);
+                    }
+                    vobs("newcomer_on_idle_event_driven_owner", 1);
+                    if (n > 0) check_get_reply(os, "xcm.type", m, n, "raw-newcomer-idle-owner");
+                    else if (n == 0) cv("no-wakeup-for-newcomer", "one-seat-free", "two control sessions were attached, one left, the owner's descriptor went quiet; a new session connected and asked for xcm.type: in 3 s the owner's xcm fd became readable %d time(s) and no reply came", wakeups);
+                }
+            }
+            if (fa >= 0) close(fa); if (fb >= 0) close(fb); if (fc >= 0) close(fc);
+            for (int i = 0; i < 10; i++) owner_service(&ow);
         } else {
             /* many sessions at once (the limit is two), some leave before the reply */
             int sfd[5]; int ns = 3 + (int)vrnd_n(&r, 3);
